@@ -31,6 +31,7 @@ func c10Gen(tier string, seed int64) []fw.Case {
 		cs = append(cs, fw.Mk(fmt.Sprintf("c07-scripts-%d", i), c10Params{Mode: "c07", N: rep * 4}))
 		cs = append(cs, fw.Mk(fmt.Sprintf("c15-waves-%d", i), c10Params{Mode: "c15", N: rep}))
 		cs = append(cs, fw.Mk(fmt.Sprintf("c20-copies-%d", i), c10Params{Mode: "c20", N: rep * 50}))
+		cs = append(cs, fw.Mk(fmt.Sprintf("retry-scenarios-%d", i), c10Params{Mode: "scen", N: rep}))
 	}
 	return cs
 }
@@ -277,6 +278,28 @@ func c10Run(c fw.Case, env *fw.Env) fw.Result {
 			if rr.Verdict == fw.Violated && rr.Sig != "id-reuse-laggard" {
 				sig, det = "c15:"+rr.Sig, rr.Detail
 			}
+		case "scen":
+			// the retrying clients in faulty runs: fuzz scenarios (all client kinds, handler replacement, responding
+			// handlers, client switches) and the Handle/Stats storm workloads, under the race detector
+			var sc scen.Scenario
+			if i%3 == 0 {
+				rp := retryParams{W: []string{"in6", "sw1", "in8", "respond", "echo", "ka"}[(i/3)%6], Cfg: scen.BrokerCfg{Method: "A", Session: []string{"keep", "lose"}[i%2]}, Client: []string{"", "retry", "retry-chaotic"}[(i/3)%3], Mode: "random", N: 1}
+				sc = rp.scenarios(sub)[0]
+			} else {
+				sc = fuzzScenario(sub)
+			}
+			run := scen.Exec(&sc)
+			if run.Inconcl != "" {
+				sig = "inconclusive"
+				break
+			}
+			a := scen.Analyse(run)
+			for _, f := range a.Hygiene() {
+				if f.Sig == "online" || f.Sig == "malformed-write" {
+					sig, det, trc = "wire-integrity:"+f.Sig, f.Detail, a.Tail(60)
+				}
+			}
+			r.Counters["scenario_connections"] += a.Connections()
 		case "c20":
 			rr := c20Run(fw.Case{Idx: c.Idx*1000 + i, P: mustJSON(c20Params{Mode: []string{"mux", "fanout"}[i%2], N: 20})}, env)
 			if rr.Verdict == fw.Violated {
